@@ -5,6 +5,124 @@ From GB Require Import Base.Prelude Base.GoSem Base.DecText Base.GoFmt Base.Byte
 From GB Require Import Model.Cell Proofs.TransEquivCellBytesDefs.
 From GBGen Require Import Consts TransCellBytes.
 Open Scope Z_scope.
+Ltac Zify.zify_post_hook ::= Z.to_euclidean_division_equations.
+
+Lemma go_slice_take d pos k l :
+  Z.of_nat pos < 2 ^ 62 -> 0 <= k < 4294967296 -> 0 <= l < 8589934592 ->
+  go_slice d (i64 (Z.of_nat pos + k)) (i64 (i64 (Z.of_nat pos + k) + l)) = take d (pos + Z.to_nat k) l.
+Proof.
+  intros Hp Hk Hl. change (2 ^ 62) with 4611686018427387904 in Hp.
+  rewrite (i64_small (Z.of_nat pos + k)) by lia. rewrite i64_small by lia.
+  unfold take. destruct (0 <=? l) eqn:E0; [|lia]. cbn [andb].
+  rewrite (go_slice_Z d _ _ (pos + Z.to_nat k) (Z.to_nat l)) by lia.
+  unfold len. destruct (Z.of_nat (pos + Z.to_nat k) + l <=? Z.of_nat (length d)) eqn:E1; [reflexivity|].
+  apply slice_panic. lia.
+Qed.
+
+Lemma lenpfx_two d pos : wf_bytes d -> Z.of_nat pos < 2 ^ 62 ->
+  res_sim (do t37 <- go_idx d (Z.of_nat pos); do t38 <- go_idx d (i64 (Z.of_nat pos + 1));
+           let v_l := (i64 (Z.lor t37 (go_shl u64 t38 8))) in
+           do t39 <- go_slice d (i64 (Z.of_nat pos + 2)) (i64 ((i64 (Z.of_nat pos + 2)) + v_l)); Ok (t39, (i64 (v_l + 2))))
+          (flat (decode_lenpfx d pos true)).
+Proof.
+  intros W Hp. unfold decode_lenpfx. rewrite le_at_2.
+  rewrite go_idx_nat. rewrite idx_off by (assumption || (cbn; lia)). change (Z.to_nat 1) with 1%nat.
+  replace (pos + 1)%nat with (S pos) by lia.
+  case_at W; [|exact I]. case_at W; [|exact I].
+  cbv zeta. rewrite bytes2_u64 by lia. rewrite (i64_small (b + 256 * b0)) by lia.
+  rewrite go_slice_take by (assumption || lia). change (Z.to_nat 2) with 2%nat.
+  destruct (take d (pos + 2) (b + 256 * b0)) as [s| |]; cbn [bind flat]; try exact I.
+  rewrite i64_small by lia. reflexivity.
+Qed.
+
+Lemma lenpfx_one d pos : wf_bytes d -> Z.of_nat pos < 2 ^ 62 ->
+  res_sim (do t40 <- go_idx d (Z.of_nat pos); let v_l := t40 in
+           do t41 <- go_slice d (i64 (Z.of_nat pos + 1)) (i64 ((i64 (Z.of_nat pos + 1)) + v_l)); Ok (t41, (i64 (v_l + 1))))
+          (flat (decode_lenpfx d pos false)).
+Proof.
+  intros W Hp. unfold decode_lenpfx. rewrite go_idx_nat.
+  case_at W; [|exact I].
+  cbv zeta. rewrite go_slice_take by (assumption || lia). change (Z.to_nat 1) with 1%nat.
+  destruct (take d (pos + 1) b) as [s| |]; cbn [bind flat]; try exact I.
+  rewrite i64_small by lia. reflexivity.
+Qed.
+
+
+(* the packed CHAR/BINARY length is a uint16 that does not wrap (as in TransEquivCell.v) *)
+Lemma str_max_sweep : sweep16 (fun m => (0 <=? string_max m) && (string_max m <? 65536)) (Z.to_nat 65536) 0 = true.
+Proof. vm_compute. reflexivity. Qed.
+Lemma str_max_u16 m : 0 <= m < 65536 -> u16 (string_max m) = string_max m.
+Proof.
+  intros H. pose proof (sweep16_spec _ _ _ str_max_sweep m ltac:(lia)) as S. cbn [Z.add] in S.
+  apply andb_true_iff in S as [A B]. apply u16_small. lia.
+Qed.
+
+Lemma enum_ok d pos meta : wf_bytes d -> Z.of_nat pos < 2 ^ 62 ->
+  res_sim
+    (if ((Z.land meta 255) =? 1) then (do t188 <- go_idx d (Z.of_nat pos); Ok ((fmt_d t188), 1))
+     else (if ((Z.land meta 255) =? 2) then
+             (do t190 <- go_slice d (Z.of_nat pos) (i64 (Z.of_nat pos + 2)); do t189 <- go_le t190 2%nat;
+              let v_val := t189 in Ok ((fmt_d v_val), 2))
+           else Err EOther))
+    (flat (decode_enum d pos meta)).
+Proof.
+  intros W Hp. change (2 ^ 62) with 4611686018427387904 in Hp. unfold decode_enum, band.
+  destruct (Z.land meta 255 =? 1).
+  - rewrite go_idx_nat. destruct (at_ d pos); cbn [bind flat]; try exact I. reflexivity.
+  - destruct (Z.land meta 255 =? 2); [|exact I].
+    rewrite i64_small by lia. cbv zeta.
+    rewrite (go_slice_le_bind d (Z.of_nat pos) (Z.of_nat pos + 2) 2 _ pos) by lia.
+    destruct (le_at d pos 2); cbn [bind flat]; try exact I. reflexivity.
+Qed.
+
+Definition set_loop (d : bytes) (v_pos v_l : Z) :=
+  fix loop191 (fuel1 : nat) (v_val : Z) (v_i : Z) {struct fuel1} : res (bytes * Z) :=
+  match fuel1 with O => Err EOutOfFuel | S fuel1p =>
+  if (v_i <? v_l) then (
+  do t192 <- go_idx d (i64 (v_pos + v_i)); let v_val := (u64 (v_val + (go_shl u64 t192 (u64 ((u64 v_i) * 8))))) in
+  let v_i := (i64 (v_i + 1)) in
+  loop191 fuel1p v_val v_i
+  ) else (
+  Ok ((fmt_d v_val), v_l)
+  ) end.
+
+Lemma u64_step val a i R :
+  0 <= i ->
+  u64 (u64 (val + go_shl u64 a (i * 8)) + 256 ^ (i + 1) * R) = u64 (val + 256 ^ i * (a + 256 * R)).
+Proof.
+  intros Hi. unfold go_shl, u64.
+  replace (2 ^ (i * 8)) with (256 ^ i) by (rewrite Z.mul_comm, Z.pow_mul_r by lia; reflexivity).
+  rewrite Z.pow_add_r by lia. change (256 ^ 1) with 256.
+  rewrite Zplus_mod_idemp_l.
+  replace (val + (a * 256 ^ i) mod 18446744073709551616 + 256 ^ i * 256 * R)
+    with ((a * 256 ^ i) mod 18446744073709551616 + (val + 256 ^ i * 256 * R)) by ring.
+  rewrite Zplus_mod_idemp_l. f_equal. ring.
+Qed.
+
+Lemma set_loop_inv d pos l : wf_bytes d -> Z.of_nat pos < 2 ^ 62 -> 0 <= l < 256 ->
+  forall k fuel i val, (k < fuel)%nat -> 0 <= i -> i + Z.of_nat k = l -> 0 <= val < 18446744073709551616 ->
+  (pos + Z.to_nat i <= length d)%nat ->
+  res_sim (set_loop d (Z.of_nat pos) l fuel val i)
+          (flat (do s <- slice d (pos + Z.to_nat i) k; Ok (Some (fmt_d (u64 (val + 256 ^ i * le_dec s))), l))).
+Proof.
+  intros W Hp Hl. induction k as [|k IH]; intros fuel i val Hf Hi Hk Hv Hb.
+  - destruct fuel as [|fuel]; [lia|]. cbn [set_loop].
+    destruct (i <? l) eqn:E; [lia|].
+    rewrite slice_0 by exact Hb. cbn [bind flat le_dec]. apply res_sim_eq. f_equal. f_equal. f_equal.
+    rewrite Z.mul_0_r, Z.add_0_r. symmetry. apply u64_small. exact Hv.
+  - destruct fuel as [|fuel]; [lia|]. cbn [set_loop].
+    destruct (i <? l) eqn:E; [|lia].
+    rewrite idx_off by (assumption || (cbn; lia)). rewrite slice_S.
+    case_at W; [|exact I]. cbv zeta.
+    rewrite (u64_small i) by lia. rewrite (u64_small (i * 8)) by lia. rewrite (i64_small (i + 1)) by lia.
+    specialize (IH fuel (i + 1) (u64 (val + go_shl u64 b (i * 8)))).
+    replace (pos + Z.to_nat (i + 1))%nat with (S (pos + Z.to_nat i)) in IH by lia.
+    assert (Hu : 0 <= u64 (val + go_shl u64 b (i * 8)) < 18446744073709551616).
+    { unfold u64 at 1. apply Z.mod_pos_bound. lia. }
+    specialize (IH ltac:(lia) ltac:(lia) ltac:(lia) Hu ltac:(lia)).
+    destruct (slice d (S (pos + Z.to_nat i)) k) as [r| |]; cbn [bind flat] in IH |- *; try exact IH.
+    cbn [le_dec]. rewrite <- u64_step by lia. exact IH.
+Qed.
 
 Section Cases.
 Variable ffmt : Z -> Z -> bytes.
@@ -13,22 +131,132 @@ Variable jsonp : bytes -> res bytes.
 
 Lemma CellBytes_TypeVarchar_ok : case_ok ffmt tz jsonp CellBytes_TypeVarchar_g [15; 253].
 Proof.
-  (* TODO *)
-Admitted.
+  intros d pos typ meta uns W Hin Hm Hp. cbn [In] in Hin.
+  assert (Hc : cell_bytes ffmt tz jsonp d pos typ meta uns = decode_lenpfx d pos (meta >? 255)).
+  { destruct Hin as [<-|[<-|[]]]; reflexivity. }
+  rewrite Hc. unfold CellBytes_TypeVarchar_g.
+  destruct (meta >? 255); [apply lenpfx_two | apply lenpfx_one]; assumption.
+Qed.
+
+Lemma blob_tail d pos meta l l' typ :
+  wf_bytes d -> Z.of_nat pos < 2 ^ 62 -> 1 <= meta <= 4 -> 0 <= l' < 4294967296 -> l = l' ->
+  res_sim
+    (if typ =? 245 then
+       (do t <- go_slice d (i64 (Z.of_nat pos + meta)) (i64 (i64 (Z.of_nat pos + meta) + l));
+        do t' <- jsonp t; Ok (t', i64 (l + meta)))
+     else
+       (do t <- go_slice d (i64 (Z.of_nat pos + meta)) (i64 (i64 (Z.of_nat pos + meta) + l)); Ok (t, i64 (l + meta))))
+    (flat (do s <- take d (pos + Z.to_nat meta) l';
+           if typ =? K_TypeJSON then
+             match jsonp s with
+             | Ok t => Ok (Some t, l' + meta)
+             | Err _ => Err EJson
+             | Panic => Panic
+             end
+           else Ok (Some s, l' + meta))).
+Proof.
+  intros W Hp Hm Hl ->. change K_TypeJSON with 245.
+  rewrite go_slice_take by (assumption || lia). rewrite (i64_small (l' + meta)) by lia.
+  destruct (typ =? 245); destruct (take d (pos + Z.to_nat meta) l') as [s| |]; cbn [bind flat]; try exact I.
+  - destruct (jsonp s) as [t| |]; cbn [bind flat]; try exact I. reflexivity.
+  - reflexivity.
+Qed.
 
 Lemma CellBytes_TypeJSON_ok : case_ok ffmt tz jsonp (CellBytes_TypeJSON_g jsonp) [245; 249; 250; 251; 252].
 Proof.
-  (* TODO *)
-Admitted.
-
-Lemma CellBytes_TypeString_ok : case_ok_fuel ffmt tz jsonp CellBytes_TypeString_g [254].
-Proof.
-  (* TODO *)
-Admitted.
+  intros d pos typ meta uns W Hin Hm Hp. cbn [In] in Hin.
+  assert (Hc : cell_bytes ffmt tz jsonp d pos typ meta uns =
+               do l <- blob_len d pos meta;
+               do s <- take d (pos + Z.to_nat meta) l;
+               if typ =? K_TypeJSON then
+                 match jsonp s with
+                 | Ok t => Ok (Some t, l + meta)
+                 | Err _ => Err EJson
+                 | Panic => Panic
+                 end
+               else Ok (Some s, l + meta)).
+  { destruct Hin as [<-|[<-|[<-|[<-|[<-|[]]]]]]; reflexivity. }
+  rewrite Hc. clear Hc Hin. unfold CellBytes_TypeJSON_g, blob_len. cbv zeta.
+  destruct (meta =? 1) eqn:E1; [apply Z.eqb_eq in E1; subst meta|].
+  2: destruct (meta =? 2) eqn:E2; [apply Z.eqb_eq in E2; subst meta|].
+  3: destruct (meta =? 3) eqn:E3; [apply Z.eqb_eq in E3; subst meta|].
+  4: destruct (meta =? 4) eqn:E4; [apply Z.eqb_eq in E4; subst meta|].
+  5: { destruct ((1 <=? meta) && (meta <=? 4)) eqn:EM; [lia | exact I]. }
+  all: cbn [Z.leb Z.compare Pos.compare Pos.compare_cont andb]; to_nat_consts.
+  all: rewrite le_at_at_le0 by lia; cbn [at_le]; rewrite ?Nat.add_0_r.
+  all: rewrite go_idx_nat; rewrite ?idx_off by (assumption || (cbn; lia)); to_nat_consts.
+  all: repeat case_at W; try exact I.
+  all: apply blob_tail; try assumption; try lia.
+  all: shl_arith; lia.
+Qed.
 
 Lemma CellBytes_TypeGeometry_ok : case_ok ffmt tz jsonp CellBytes_TypeGeometry_g [255].
 Proof.
-  (* TODO *)
-Admitted.
+  intros d pos typ meta uns W Hin Hm Hp. cbn [In] in Hin. destruct Hin as [<-|[]].
+  assert (Hc : cell_bytes ffmt tz jsonp d pos 255 meta uns =
+               do l <- blob_len d pos meta;
+               do s <- take d (pos + Z.to_nat meta) l;
+               if 255 =? K_TypeJSON then
+                 match jsonp s with
+                 | Ok t => Ok (Some t, l + meta)
+                 | Err _ => Err EJson
+                 | Panic => Panic
+                 end
+               else Ok (Some s, l + meta)) by reflexivity.
+  rewrite Hc. clear Hc. unfold CellBytes_TypeGeometry_g, blob_len. cbv zeta.
+  destruct (meta =? 1) eqn:E1; [apply Z.eqb_eq in E1; subst meta|].
+  2: destruct (meta =? 2) eqn:E2; [apply Z.eqb_eq in E2; subst meta|].
+  3: destruct (meta =? 3) eqn:E3; [apply Z.eqb_eq in E3; subst meta|].
+  4: destruct (meta =? 4) eqn:E4; [apply Z.eqb_eq in E4; subst meta|].
+  5: { destruct ((1 <=? meta) && (meta <=? 4)) eqn:EM; [lia | exact I]. }
+  all: cbn [Z.leb Z.compare Pos.compare Pos.compare_cont andb]; to_nat_consts.
+  all: rewrite le_at_at_le0 by lia; cbn [at_le]; rewrite ?Nat.add_0_r.
+  all: rewrite go_idx_nat; rewrite ?idx_off by (assumption || (cbn; lia)); to_nat_consts.
+  all: repeat case_at W; try exact I.
+  all: match goal with |- res_sim (bind (go_slice ?d (i64 (_ + ?m)) (i64 (_ + ?l))) _) (flat (bind (take _ _ ?l') _)) =>
+         apply (blob_tail d pos m l l' 255)
+       end; try assumption; try lia.
+  all: shl_arith; lia.
+Qed.
 
+(* TypeString does not satisfy case_ok_fuel as it stands: for SET-as-string with a width byte of 0 (metadata 248*256) the Go
+   loop runs zero times and never touches data, so it returns ("0", 0) even when pos is beyond the end of data, while the
+   model's `take d pos 0` panics when pos > len d.  The witness is CellBytes_TypeString_differs; the equivalence is proved
+   under the extra premise pos <= length d (which is all that differs from case_ok_fuel). *)
+Lemma CellBytes_TypeString_differs :
+  CellBytes_TypeString_g 1000 [] 1 254 63488 false = Ok ([48], 0) /\
+  flat (cell_bytes ffmt tz jsonp [] 1 254 63488 false) = Panic.
+Proof. split; vm_compute; reflexivity. Qed.
+
+Lemma CellBytes_TypeString_ok :
+  forall fuel, (1000 <= fuel)%nat -> forall d pos typ meta uns,
+    wf_bytes d -> In typ [254] -> 0 <= meta < 65536 -> Z.of_nat pos < 2 ^ 62 -> (pos <= length d)%nat ->
+    res_sim (CellBytes_TypeString_g fuel d (Z.of_nat pos) typ meta uns) (flat (cell_bytes ffmt tz jsonp d pos typ meta uns)).
+Proof.
+  intros fuel Hf d pos typ meta uns W Hin Hm Hp Hb. cbn [In] in Hin. destruct Hin as [<-|[]].
+  assert (Hc : cell_bytes ffmt tz jsonp d pos 254 meta uns =
+               if shr meta 8 =? 247 then decode_enum d pos meta
+               else if shr meta 8 =? 248 then
+                 (do s <- take d pos (band meta 255); Ok (Some (fmt_d (u64 (le_dec s))), band meta 255))
+               else decode_lenpfx d pos (string_max meta >? 255)) by reflexivity.
+  rewrite Hc. clear Hc. unfold CellBytes_TypeString_g. cbv zeta.
+  change (go_shr meta 8) with (shr meta 8).
+  destruct (shr meta 8 =? 247); [apply enum_ok; assumption|].
+  destruct (shr meta 8 =? 248).
+  - change (res_sim (set_loop d (Z.of_nat pos) (Z.land meta 255) fuel 0 0)
+                    (flat (do s <- take d pos (Z.land meta 255);
+                           Ok (Some (fmt_d (u64 (le_dec s))), Z.land meta 255)))).
+    assert (Hl : 0 <= Z.land meta 255 < 256) by (rewrite land_255; lia).
+    pose proof (set_loop_inv d pos (Z.land meta 255) W Hp Hl (Z.to_nat (Z.land meta 255)) fuel 0 0
+                  ltac:(lia) ltac:(lia) ltac:(lia) ltac:(lia) ltac:(cbn; lia)) as S.
+    change (Z.to_nat 0) with 0%nat in S. rewrite Nat.add_0_r in S.
+    unfold take. destruct (0 <=? Z.land meta 255) eqn:E0; [|lia]. cbn [andb].
+    unfold len. destruct (Z.of_nat pos + Z.land meta 255 <=? Z.of_nat (length d)) eqn:E1.
+    + destruct (slice d pos (Z.to_nat (Z.land meta 255))) as [s| |]; cbn [bind flat] in S |- *; try exact S.
+      change (256 ^ 0) with 1 in S. rewrite Z.add_0_l, Z.mul_1_l in S. exact S.
+    + rewrite slice_panic in S by lia. exact S.
+  - change (Z.lxor (Z.land (go_shr meta 4) 768) 768 + Z.land meta 255) with (string_max meta).
+    rewrite str_max_u16 by exact Hm.
+    destruct (string_max meta >? 255); [apply lenpfx_two | apply lenpfx_one]; assumption.
+Qed.
 End Cases.
